@@ -34,7 +34,8 @@ PROBES = ['rejection_repeated_on_retry', 'duplicate_between_two_later_parts', 't
           'request_after_gc_rebuilt', 'identity_while_held', 'file_removed_after_load',
           'unpickled_database_answered', 'invalid_description_rejected',
           'files_rewritten_between_two_database_objects',
-          'constructor_given_a_list_or_tuple_of_parts', 'two_client_threads']
+          'constructor_given_a_list_or_tuple_of_parts', 'two_client_threads',
+          'callers_list_extended_after_construction']
 BUDGET = {
     'quick': {'families': 10000, 'wall_cap': 420, 'shrink_s': 10},
     'thorough': {'families': 100000, 'wall_cap': 5400, 'shrink_s': 30},
@@ -352,16 +353,33 @@ def run(case):
                 sp = case.get('spelling', 0)
                 if case['backend'] == 'dict':
                     # DictDatabase(d1, d2, ...), DictDatabase([d1, d2, ...]), DictDatabase((d1, ...))
+                    arg_list = list(src)
                     db = ldb.DictDatabase(*src) if sp % 3 == 0 else \
-                        ldb.DictDatabase(src if sp % 3 == 1 else tuple(src))
+                        ldb.DictDatabase(arg_list if sp % 3 == 1 else tuple(src))
+                    if sp % 3 == 1:
+                        # the caller goes on using its list (e.g. to build another database)
+                        arg_list.append({'datasets': {'zzz_extra': {'q': {'v': 0}}}})
+                        probes['callers_list_extended_after_construction'] = 1
                 else:
                     import pathlib as _pl
                     pp = [_pl.Path(x) if (sp >> 2) & 1 else x for x in paths]
                     db = ldb.JsonDatabase(*pp) if sp % 3 == 0 else \
                         ldb.JsonDatabase(pp if sp % 3 == 1 else tuple(pp))
+                    if sp % 3 == 1:
+                        # the caller extends its list of paths before the database is
+                        # first used (the files are loaded lazily)
+                        extra_p = os.path.join(tmp, 'extra_for_another_db.json')
+                        with open(extra_p, 'w') as f_:
+                            json.dump({'datasets': {'zzz_extra': {'q': {'v': 0}}}}, f_)
+                        pp.append(extra_p)
+                        probes['callers_list_extended_after_construction'] = 1
                     db.data
                 if sp % 3:
                     probes['constructor_given_a_list_or_tuple_of_parts'] = 1
+                if sp % 3 == 1 and 'zzz_extra' in db.dataset_names:
+                    bad('wrong_content', 'wrong_content:callers_list',
+                        'the database serves a part the caller appended to its own list after '
+                        'the database had been constructed: %s' % (db.dataset_names,))
             except Exception as e:
                 err = e
             if not ok_merge and err is not None and db is not None:
